@@ -1126,6 +1126,38 @@ def parse_units():
                   # what the parser hands to the builder / generator for the NEXT action
                   "r is Ok ==> match r->Ok_0.next { Some(g) => next is Some && next->0.comb() == Some(g.combinator) && group_wf(g) && (g.application_type == ApplicationType::Deferred) == deferred, None => next is None || next->0.comb() is None }",
               ]})
+    # parse_until, ONE evaluation of the scan condition (R15 block lifting out of the `while` condition, with the captured
+    # locals the block assigns handed back next to its value): the operator that ends the operand is the FIRST row of the
+    # determiner table that matches at this position (C14: with lemma_first_match_is_longest = the longest documented
+    # operator), it ends the operand only after a complete operand, and a `~` must be followed by a combinator.
+    # Model note: within this block every group-determiner peek sees the same stream state (the only consuming call,
+    # erasing the `~`, precedes them), so `check_input` is a pure function of the stream here.
+    GD = "&'a GroupDeterminer"
+    u.append({"kind": "lifted", "file": F_UTILS, "self_ty": "", "func": "parse_until", "block_from": "deferred = deferred_determiner.check_input(input);",
+              "ret_wrap": "Ok(({}, deferred, next))", "header": "impl ParseUntil",
+              "sig": "scan_step<'a, 'b, T: Parse>(input: ParseStream<'b>, group_determiners: &'a [GroupDeterminer], deferred_determiner: &'a GroupDeterminer, "
+                     "allow_empty_parsed: bool, tokens: &TokenStream, mut deferred: bool, mut next: Option<&'a GroupDeterminer>) -> syn::Result<(bool, bool, Option<&'a GroupDeterminer>)>",
+              "spec": fn("scan_step", "r", label="ParseUntil::scan_step",
+                         ensures=[
+                             "r is Ok ==> (r->Ok_0).1 == deferred_determiner.matches(input)",
+                             "r is Ok && (r->Ok_0).0 ==> exists|k: int| #[trigger] is_first_match(group_determiners@, input, k) && (r->Ok_0).2 == Some(&group_determiners@[k]) "
+                             "&& unit_end_ok::<T>(group_determiners@[k], tokens@, allow_empty_parsed)",
+                             "r is Ok && !(r->Ok_0).0 ==> (r->Ok_0).2 == next",
+                             "r is Ok && (r->Ok_0).1 ==> (r->Ok_0).0 && (r->Ok_0).2 is Some && (r->Ok_0).2->0.comb() is Some",
+                             "r is Ok && no_match(group_determiners@, input) ==> !(r->Ok_0).0",
+                         ],
+                         closures={
+                             "0": {"params": ["&" + GD], "ret": "(r: bool)", "ensures": ["r == (**group).matches(input)"]},
+                             "1": {"params": [GD], "ret": "(r: bool)", "ensures": ["r == unit_end_ok::<T>(*group, tokens@, allow_empty_parsed)"]},
+                             "2": {"params": [GD], "ret": "(r: Option<Combinator>)", "ensures": ["r == group.comb()"]},
+                         },
+                         iter_loops={"0": {"invariant": [
+                             "__it@ == group_determiners@", "__i <= __it@.len()",
+                             "forall|j: int| 0 <= j < __i ==> !(#[trigger] __it@[j]).matches(input)",
+                             "__r is Some ==> __i < __it@.len() && __r == Some(&__it@[__i as int]) && __it@[__i as int].matches(input)",
+                             "forall|g: &%s| #[trigger] __p.requires((g,))" % GD,
+                             "forall|g: &%s, b: bool| #[trigger] __p.ensures((g,), b) ==> b == (**g).matches(input)" % GD,
+                         ], "after": "proof { if __r is Some { assert(is_first_match(group_determiners@, input, __i as int)); } else { assert(no_match(group_determiners@, input)); } }"}})})
     return u
 
 
@@ -1294,12 +1326,12 @@ OBLIGATIONS = {
     "C05": [("top", "generate_join"), ("top", "JoinOutput::new"), ("steps", "JoinOutput::join_steps"), ("steps", "lemma_join_comma"), ("steps", "lemma_count_take_step"), ("gen", "JoinOutput::generate_results_transposer"), ("parse", "parse_until_suffix"), ("parse", "ActionGroup::parse_stream"),
             ("core", "ActionGroup::to_wrapper_action_expr"), ("core", "ActionGroup::new"), ("core", "ExprGroup::application_type")],
     "C12": [("sep", "JoinOutput::separate_block_expr_process"), ("sep", "JoinOutput::separate_block_expr_err"), ("sep", "JoinOutput::separate_block_expr_initial"), ("sep", "lemma_sep_step"), ("steps", "JoinOutput::join_steps"), ("steps", "lemma_join_comma"), ("steps", "lemma_count_take_step"), ("builder", "ActionExprChainBuilder::build_from_parse_stream"), ("gen", "JoinOutput::branch_result_name"), ("gen", "JoinOutput::branch_result_pat")],
-    "C15": [("builder", "JoinInputDefault::parse_branches"), ("top", "generate_join"), ("top", "JoinOutput::new"), ("top", "JoinOutput::new_fields"), ("top", "lemma_new_fields"), ("steps", "JoinOutput::generate_steps"), ("gen", "lemma_split_balance"), ("gen", "lemma_accepted_chain_never_underflows"), ("gen", "lemma_split_members"), ("gen", "lemma_accepted_branch"), ("builder", "lemma_member_ok"), ("builder", "lemma_unwrap_only_from_unwrap"), ("gen", "JoinOutput::split_branch_steps"), ("gen", "JoinOutput::generate_step_branch"), ("parse", "parse_until_suffix"), ("builder", "ActionExprChainBuilder::build_from_parse_stream"), ("builder", "ActionExprChain::append_member"),
+    "C15": [("parse", "ParseUntil::scan_step"), ("builder", "ActionExprChainBuilder::parse_unit"), ("builder", "JoinInputDefault::parse_branches"), ("top", "generate_join"), ("top", "JoinOutput::new"), ("top", "JoinOutput::new_fields"), ("top", "lemma_new_fields"), ("steps", "JoinOutput::generate_steps"), ("gen", "lemma_split_balance"), ("gen", "lemma_accepted_chain_never_underflows"), ("gen", "lemma_split_members"), ("gen", "lemma_accepted_branch"), ("builder", "lemma_member_ok"), ("builder", "lemma_unwrap_only_from_unwrap"), ("gen", "JoinOutput::split_branch_steps"), ("gen", "JoinOutput::generate_step_branch"), ("parse", "parse_until_suffix"), ("builder", "ActionExprChainBuilder::build_from_parse_stream"), ("builder", "ActionExprChain::append_member"),
             ("builder", "lemma_append_facts"), ("builder", "lemma_balanced_depth"),
             ("gen", "JoinOutput::wrap_last_step_stream"), ("gen", "JoinOutput::process_step_action_expr"),
             ("gen", "JoinOutput::generate_def_and_step_streams"), ("gen", "JoinOutput::expand_process_expr"),
             ("core", "ProcessExpr::to_tokens")],
-    "C14": [("parse", "parse_until_suffix"), ("det", "lemma_first_match_is_longest"), ("optable", "lemma_operator_tables")],
+    "C14": [("parse", "ParseUntil::scan_step"), ("parse", "parse_until_suffix"), ("det", "lemma_first_match_is_longest"), ("optable", "lemma_operator_tables")],
     "C16": [("builder", "JoinInputDefault::parse_branches"), ("top", "generate_join"), ("top", "jo_into_token_stream"), ("top", "ji_futures_crate_path"), ("top", "ji_branches"), ("top", "ji_handler"), ("top", "ji_joiner"), ("top", "ji_transpose_results_option"), ("top", "ji_lazy_branches_option"), ("top", "JoinOutput::new"), ("gen", "JoinOutput::generate_handle"), ("gen", "JoinOutput::generate_step_branch"), ("steps", "JoinOutput::generate_step_tail"), ("guards", "new_init_lazy_branches"), ("guards", "new_init_transpose")],
     "C17": [("sep", "is_block_expr"), ("sep", "JoinOutput::separate_block_expr_process"), ("sep", "JoinOutput::separate_block_expr_err"), ("sep", "JoinOutput::separate_block_expr_initial"), ("sep", "lemma_sep_step")] + [("names", "lemma_names_never_clash"), ("names", "lemma_names_table"), ("names", "lemma_name3_injective"), ("names", "lemma_name1_injective"), ("names", "lemma_distinguishable"), ("names", "lemma_names_strlits"), ("gen", "JoinOutput::generate_def_and_step_streams")] + [("core", n) for n in ['construct_var_name', 'construct_step_results_name', 'construct_result_name', 'construct_thread_builder_name', 'construct_inspect_fn_name', 'construct_spawn_tokio_fn_name', 'construct_results_name', 'construct_handler_name', 'construct_internal_value_name', 'construct_thread_builder_fn_name', 'construct_expr_wrapper_name']],
     "C20": [("core", n) for n in ['construct_var_name', 'construct_step_results_name', 'construct_result_name', 'construct_thread_builder_name', 'construct_inspect_fn_name', 'construct_spawn_tokio_fn_name', 'construct_results_name', 'construct_handler_name', 'construct_internal_value_name', 'construct_thread_builder_fn_name', 'construct_expr_wrapper_name']],
